@@ -421,6 +421,11 @@ def run(ctx):
     renderer_transparent(ctx, py)
     argument_order(ctx, py)
     transformers_treat_outputs_alike(ctx, py)
+    # the pretty printer prints one step for every interpreter call (decorator, above); the binary file has one instruction for
+    # every call only if the serializer writes on every path of every call (shared with C14)
+    from ..core.wiring import Wiring
+    from .c14 import writer_emits
+    writer_emits(ctx, py, Wiring(py))
     one_line_per_instruction(ctx, py)
     ctx.floor('format-covers-deps', 28)
     ctx.floor('one-line-per-step', 60)
